@@ -125,4 +125,21 @@ struct Hasher {
   }
 };
 
+/// Deterministic expansion of one tape word into a long tape (splitmix64): lets
+/// a property append a *large* companion instance to a case without needing a
+/// tape of thousands of words; still a pure function of the tape.
+inline Tape expandTape(uint64_t seed, size_t n) {
+  Tape t;
+  t.w.resize(n);
+  uint64_t x = seed * 0x9E3779B97F4A7C15ULL + 0x632BE59BD9B4E019ULL;
+  for (size_t i = 0; i < n; ++i) {
+    x += 0x9E3779B97F4A7C15ULL;
+    uint64_t z = x;
+    z = (z ^ (z >> 30)) * 0xBF58476D1CE4E5B9ULL;
+    z = (z ^ (z >> 27)) * 0x94D049BB133111EBULL;
+    z ^= z >> 31;
+    t.w[i] = (uint32_t)(z >> 16);
+  }
+  return t;
+}
 }  // namespace verif
